@@ -5,7 +5,7 @@ import copy
 from typing import Dict, List
 
 from .. import coqrun as C
-from .. import core, engprop as E, hx
+from .. import core, engprop as E, hx, hxcorr
 from .. import indicators as X
 
 
@@ -135,9 +135,18 @@ def run(ctx: core.Ctx) -> int:
         split = rng.choice([0, 1, n // 2, n])
         cases.append({"a": a, "b": b, "rows": rows, "split": split, "ops": ops, "target": target, "tf": tf,
                       "mid": rng.randrange(0, n - split) if n - split > 0 and rng.random() < 0.7 else None})
+    hc = hxcorr.HxCorr(ctx, "C13")
     for c in cases:
         ctx.count("eval_falsifier")
         falsify(ctx, c)
+        # the same history on the Hexital model: both members, the operations aimed at the first
+        prog = [("calculate", None)]
+        rest = c["rows"][c["split"]:]
+        mid = c.get("mid") if c.get("mid") is not None else len(rest)
+        prog += [("append", [r]) for r in rest[:mid]]
+        prog += [(op, 0) for op in c["ops"]]
+        prog += [("append", [r]) for r in rest[mid:]]
+        hc.add([c["a"], c["b"]], [c.get("tf"), c.get("tf")], {}, c["rows"][:c["split"]], prog, rng)
         key = c.get("target") or "random-pair"
         dist[key] = dist.get(key, 0) + 1
         if c.get("tf"):
@@ -145,6 +154,7 @@ def run(ctx: core.Ctx) -> int:
         ctx.seen({"a": c["a"], "b": c["b"], "rows": c["rows"], "ops": c["ops"]}, len(c["rows"]) >= 6)
         if len(ctx.samples) < 3:
             ctx.sample({"a": c["a"], "b": c["b"], "n": len(c["rows"]), "ops": c["ops"], "target": c.get("target")})
+    hc.run()
     ctx.coverage.update({"input_distribution": dist,
                          "nontrivial_rule": "two indicators with distinct names on >= 6 shared candles and at least one operation aimed at one of them"})
     return core.finish(ctx, proof)
